@@ -527,18 +527,18 @@ def MetaRenderOk (R : Render) (m : Meta) : Prop :=
   NumOk R m.hpDrainRate ∧ NumOk R m.circleSize ∧ NumOk R m.overallDifficulty ∧ NumOk R m.approachRate ∧
   NumOk R m.sliderMultiplier ∧ NumOk R m.sliderTickRate
 
-/-- `denote (write (read t)) = quantize (denote t)` — PARTIAL (one chart-side hypothesis left).
+/-- `denote (write (read t)) = quantize (denote t)`, with the `TailOk` facts about the hitsound file names still as a
+hypothesis (discharged in `denote_write_read` below).
 For every dialect text `t` (skeleton `s`, `s.WF`) that the format reads as `c` with a key count 1..256:
 `read t = .ok c` and `denoteText (writeText R c) = .ok (quantize R.uni c)`.
 DERIVED here from "`c` was read from a dialect text" (no longer hypotheses): columns inside the key count (clamp),
 hitsound and sample file names free of `,` `:` (they are pieces of a split), bpm ≠ 0 and SV ≠ 0 (`60000 / code`,
 `-100 / code` with `code ≠ 0`), AudioLeadIn / BeatDivisor / GridSize integral (read by `int()`, invariant of the
 key/value loop), background name free of `"` `,` (`BgOk`).
-STILL A HYPOTHESIS, although true of every chart read from trimmed `"\n"`-split lines: hitsound file names contain no
-line break and do not end in a blank (`TailOk`) — the missing piece is "the last field of a trimmed line does not end
-in white space".  The renderer assumptions (`ReprOk`, `MetaRenderOk`, no line break in a header token) are parameters
+STILL A HYPOTHESIS in this lemma: hitsound file names contain no line break and do not end in a blank (`TailOk`).
+The renderer assumptions (`ReprOk`, `MetaRenderOk`, no line break in a header token) are parameters
 of the model and remain hypotheses in any case. -/
-theorem denote_write_read_partial (s : Skeleton) (hwf : s.WF) (lines0 : List Str) (hl : lines0.map strip = s.lines)
+theorem denote_write_read_of_tailOk (s : Skeleton) (hwf : s.WF) (lines0 : List Str) (hl : lines0.map strip = s.lines)
     (c : Chart) (hden : denote lines0 = .ok c) (R : Render)
     (hk : 1 ≤ pyTrunc c.md.circleSize) (hk' : pyTrunc c.md.circleSize ≤ 256)
     (htail : (∀ h ∈ c.hits, TailOk h.file) ∧ (∀ h ∈ c.holds, TailOk h.file))
@@ -625,6 +625,88 @@ theorem denote_write_read_partial (s : Skeleton) (hwf : s.WF) (lines0 : List Str
             exact ⟨i1, r1, r2, i2, i3, r3, r4, r5, r6, r7, r8, r9, hsf⟩
           obtain ⟨tail, _, hq, hc, _, _⟩ := hwf.bg
           exact denote_writeText R _ (by show 0 < pyTrunc m0.circleSize; omega) hk' hhits hholds hb hs hm hnl hq hc
+
+/-- every object of a chart that the format reads from a skeleton comes from one of its object lines -/
+theorem objects_from_lines (s : Skeleton) (hwf : s.WF) (lines0 : List Str) (hl : lines0.map strip = s.lines)
+    (c : Chart) (hden : denote lines0 = .ok c) :
+    (∀ h ∈ c.hits, ∃ l ∈ s.O, denoteObj (pyTrunc c.md.circleSize) l = .ok (some (.hit h))) ∧
+    (∀ h ∈ c.holds, ∃ l ∈ s.O, denoteObj (pyTrunc c.md.circleSize) l = .ok (some (.hold h))) := by
+  rw [s.denote_eq hwf lines0 hl] at hden
+  cases h0 : denoteKv {} (((s.G ++ s.E) ++ s.M) ++ s.D) with
+  | error e => rw [h0] at hden; simp at hden
+  | ok m0 =>
+    rw [h0] at hden; simp only [] at hden
+    cases hss : mapE readSample (s.S.filter (startsWith pSample)) with
+    | error e => rw [hss] at hden; simp at hden
+    | ok ss =>
+      rw [hss] at hden; simp only [] at hden
+      cases htp : filterMapE denoteTiming (s.T.filter nb) with
+      | error e => rw [htp] at hden; simp at hden
+      | ok tps =>
+        rw [htp] at hden; simp only [] at hden
+        cases hob : filterMapE (denoteObj (pyTrunc m0.circleSize)) (s.O.filter nb) with
+        | error e => rw [hob] at hden; simp at hden
+        | ok objs =>
+          rw [hob] at hden
+          simp only [Except.ok.injEq] at hden
+          subst hden
+          constructor
+          · intro h hh
+            obtain ⟨o, ho, hoh⟩ := List.mem_filterMap.mp hh
+            cases o with
+            | hit x =>
+              simp only [objHit, Option.some.injEq] at hoh; subst hoh
+              obtain ⟨l, hl1, hl2⟩ := filterMapE_mem _ _ _ hob _ ho
+              exact ⟨l, List.mem_of_mem_filter hl1, hl2⟩
+            | hold x => simp [objHit] at hoh
+          · intro h hh
+            obtain ⟨o, ho, hoh⟩ := List.mem_filterMap.mp hh
+            cases o with
+            | hit x => simp [objHold] at hoh
+            | hold x =>
+              simp only [objHold, Option.some.injEq] at hoh; subst hoh
+              obtain ⟨l, hl1, hl2⟩ := filterMapE_mem _ _ _ hob _ ho
+              exact ⟨l, List.mem_of_mem_filter hl1, hl2⟩
+
+/-- **`denote (writeText (read t)) = quantize (denote t)` — text → chart → text, for every text of the dialect.**
+If the trimmed lines of the text `t` form a well-formed skeleton and the format reads `t` as the chart `c` with a key
+count 1..256, then `OsuMap.read_file`'s reader returns exactly `c` (`readText t = .ok c`), and the text that
+`OsuMap.write` produces from `c` is again a text of the dialect which the format reads as `quantize c`.
+The only hypotheses besides the skeleton are the parameters of the model (DESIGN §5 K3): `repr` of each float that is
+written reads back exactly and has no comma / blank (`ReprOk`, `MetaRenderOk`), and no header token renders a line
+break (`hnl`; finding D44 shows that `unidecode` violates it for U+2028 / U+2029 in Title / Artist).  Everything
+about the chart — columns inside the key count, separator-free and blank-free file names, non-zero bpm / SV, integral
+int-read attributes, quotable background name — is derived from "`c` was read from a dialect text". -/
+theorem denote_write_read (s : Skeleton) (hwf : s.WF) (t : Str) (hl : (splitOn '\n' t).map strip = s.lines)
+    (c : Chart) (hden : denoteText t = .ok c) (R : Render)
+    (hk : 1 ≤ pyTrunc c.md.circleSize) (hk' : pyTrunc c.md.circleSize ≤ 256)
+    (hRb : ∀ b ∈ c.bpms, ReprOk R b.offset ∧ ReprOk R (bpmCode b.bpm))
+    (hRs : ∀ b ∈ c.svs, ReprOk R b.offset ∧ ReprOk R (svCode b.multiplier))
+    (hRm : MetaRenderOk R c.md) (hnl : ∀ tl ∈ writeMeta c.md, ∀ t ∈ tl, '\n' ∉ R.tok t) :
+    readText t = .ok c ∧ denoteText (writeText R c) = .ok (quantize R.uni c) := by
+  unfold denoteText at hden
+  obtain ⟨oh, od⟩ := objects_from_lines s hwf _ hl c hden
+  have hline : ∀ l ∈ s.O, ∃ x, '\n' ∉ x ∧ l = strip x := by
+    intro l hlO
+    have hmem : l ∈ s.lines := by
+      unfold Skeleton.lines
+      simp only [List.mem_append, List.mem_cons]
+      exact Or.inr (Or.inr (Or.inr (Or.inr hlO)))
+    rw [← hl, List.mem_map] at hmem
+    obtain ⟨x, hx, rfl⟩ := hmem
+    exact ⟨x, (mem_splitOn '\n' t x hx).1, rfl⟩
+  have htail : (∀ h ∈ c.hits, TailOk h.file) ∧ (∀ h ∈ c.holds, TailOk h.file) := by
+    constructor
+    · intro h hh
+      obtain ⟨l, hlO, hd⟩ := oh h hh
+      obtain ⟨x, hx, rfl⟩ := hline l hlO
+      exact denoteObj_tailOk _ x hx _ hd
+    · intro h hh
+      obtain ⟨l, hlO, hd⟩ := od h hh
+      obtain ⟨x, hx, rfl⟩ := hline l hlO
+      exact denoteObj_tailOk _ x hx _ hd
+  have := denote_write_read_of_tailOk s hwf _ hl c hden R hk hk' htail hRb hRs hRm hnl
+  exact ⟨by unfold readText; exact this.1, this.2⟩
 
 /-- non-vacuity: the 7K demo chart written and read by the book -/
 example : denoteText (writeText intRender demoChart) = .ok (quantize id demoChart) :=
